@@ -89,10 +89,119 @@ F = lambda c, i, a=None: ["field", c, ["#%d" % i, [], None], a]
 I = lambda z: ["vali", z, None]
 
 
+EDGES = ["unbounded_preceding", ["preceding", 2], ["preceding", 1], ["preceding", 0], "current", ["following", 0],
+         ["following", 1], ["following", 2], "unbounded_following"]
+
+
+def _edge_ok(lo, hi):
+    """the frames SQLite's grammar accepts: start <= end by kind, and by offset inside a kind"""
+    kind = lambda e: 0 if e == "unbounded_preceding" else 4 if e == "unbounded_following" else 2 if e == "current" else (1 if e[0] == "preceding" else 3)
+    if lo == "unbounded_following" or hi == "unbounded_preceding" or kind(lo) > kind(hi):
+        return False
+    if kind(lo) == kind(hi) == 1:
+        return lo[1] >= hi[1]
+    if kind(lo) == kind(hi) == 3:
+        return lo[1] <= hi[1]
+    return True
+
+
+def window_frame_cases():
+    """the whole product of frame edges {UNBOUNDED, 0, 1, 2 PRECEDING/FOLLOWING, CURRENT ROW} for ROWS (under a total
+    order) and for RANGE (one numeric key), one statement per lower edge, one window per upper edge"""
+    from harness.c04.sqlite_ref import COLS
+    out = []
+    cols = [["t", F(c, 0)] for c in COLS]
+    total = [[F(c, 0), d] for c, d in zip(COLS, [None, "desc", "asc", None, "desc"])]
+    for mode, obs, part in (("rows", total, []), ("rows", total, [F("c", 0)]), ("range", [[F("a", 0), None]], []),
+                            ("range", [[F("b", 0), "desc"]], [F("c", 0)])):
+        for lo in EDGES:
+            his = [hi for hi in EDGES if _edge_ok(lo, hi)]
+            if mode == "range":
+                his = [hi for hi in his if hi == "current" or isinstance(hi, str) or hi[1] < 2]
+                if not isinstance(lo, str) and lo[1] == 2:
+                    continue
+            if not his:
+                continue
+            wins = [["t", ["win", fn, [F("b", 0)], part, obs, [mode, lo, hi], "w%d" % n]]
+                    for n, (hi, fn) in enumerate((h, f) for h in his for f in (["SUM", "COUNT"] if mode == "rows" else ["SUM"]))]
+            out.append({"kind": "sq", "order": None,
+                        "spec": {"k": "sel", "cls": "SQLLiteQuery", "joins": [], "from": [T("t")], "selects": cols + wins}})
+    return out
+
+
+def form_cases():
+    """multi-source statements whose sources share every column name, built through the alternative argument forms of
+    the API (column names, "*", positions, from_("t"), on_field): several seeds per statement, so every form is taken"""
+    sel = lambda **kw: dict({"k": "sel", "cls": "SQLLiteQuery", "joins": []}, **kw)
+    cnt = ["func", "COUNT", [["star", None]], None]
+    eq = lambda c, j: ["basic", "eq", F(c, 0), F(c, j), None]
+    specs = [
+        sel(**{"from": [T("t")], "joins": [["left", T("u"), ["on", ["t", eq("a", 1)]]]],
+               "selects": [["t", F("c", 0)], ["t", cnt], ["t", ["func", "SUM", [F("b", 1)], "total"]]],
+               "groupby": [["t", F("c", 0)]], "orderby": [[["t", F("c", 0)], "desc"]]}),
+        sel(**{"from": [T("t"), T("v")], "selects": [["t", F("a", 0)], ["t", F("b", 0)], ["t", F("b", 1, "vb")]],
+               "where": ["t", ["basic", "eq", F("id", 0), F("id", 1), None]],
+               "orderby": [[["t", F("a", 0)], None], [["t", F("b", 0)], "desc"], [["t", ["vali", 3, None]], None]]}),
+        sel(**{"from": [T("orders")], "joins": [["inner", T("cust"), ["on", ["t", ["cplx", "and", eq("id", 1), eq("a", 1), None]]]],
+                                                  ["right", T("u"), ["on", ["t", eq("b", 2)]]]],
+               "selects": [["t", F("a", 0)], ["t", F("s", 0)], ["t", ["func", "MAX", [F("c", 2)], None]]],
+               "groupby": [["t", ["vali", 1, None]], ["t", F("s", 0)]],
+               "orderby": [[["t", ["vali", 1, None]], "asc"], [["t", F("s", 0)], None]]}),
+        sel(**{"from": [T("t")], "joins": [["inner", T("v"), ["using", ["id", "a"]]]], "selects": [["t", F("b", 0)], ["t", F("c", 1)]]}),
+        sel(**{"from": [T("t")], "joins": [["left_outer", T("v"), ["on", ["t", eq("id", 1)]]]], "selects": [["t", ["star", None]]]}),
+        sel(**{"from": [T("u")], "joins": [["cross", T("v"), ["cross"]]], "distinct": True,
+               "selects": [["t", F("b", 0)], ["t", F("c", 0)]], "orderby": [[["t", F("c", 0)], None], [["t", F("b", 0)], None]],
+               "limit": 3, "offset": 0}),
+    ]
+    return [{"kind": "sq", "order": 1000 + k, "spec": sp_} for sp_ in specs for k in range(6)]
+
+
+def naming_cases():
+    """three and four generated sub-query aliases in one statement (sq0, sq1, sq2, ...), from FROM and from JOIN"""
+    sel = lambda **kw: dict({"k": "sel", "cls": "SQLLiteQuery", "joins": []}, **kw)
+    agg = lambda tb, fn, c: sel(**{"from": [T(tb)], "selects": [["t", F("a", 0)], ["t", ["func", fn, [F(c, 0)], "total"]]],
+                                   "groupby": [["t", F("a", 0)]]})
+    on = lambda j: ["on", ["t", ["basic", "eq", F("a", 0), F("a", j), None]]]
+    a = sel(**{"from": [T("t")],
+               "joins": [["left", ["q", agg("u", "SUM", "b")], on(1)], ["left", ["q", agg("v", "MAX", "c")], on(2)],
+                         ["left", ["q", agg("orders", "COUNT", "id")], on(3)]],
+               "selects": [["t", F("a", 0)], ["t", F("total", 1)], ["t", F("total", 2, "m")], ["t", F("total", 3, "n")]]})
+    b = sel(**{"from": [["q", agg("t", "MIN", "b")]],
+               "joins": [["inner", ["q", agg("u", "SUM", "b")], on(1)], ["left_outer", ["q", agg("v", "MAX", "c")], on(2)],
+                         ["cross", ["q", agg("cust", "COUNT", "id")], ["cross"]]],
+               "selects": [["t", F("a", 0)], ["t", F("total", 0)], ["t", F("total", 1, "m")], ["t", F("total", 2, "n")],
+                           ["t", F("total", 3, "k")]]})
+    c = sel(**{"from": [["q", agg("t", "MIN", "b")], ["q", agg("u", "SUM", "c")]],
+               "joins": [["inner", ["q", agg("v", "MAX", "c")], on(2)], ["right", ["q", agg("orders", "SUM", "id")], on(3)]],
+               "selects": [["t", F("total", 0)], ["t", F("total", 1, "m")], ["t", F("total", 2, "n")], ["t", F("total", 3, "k")]],
+               "where": ["t", ["basic", "eq", F("a", 0), F("a", 1), None]]})
+    return [{"kind": "sq", "order": o, "spec": x} for x in (a, b, c) for o in (None, 7)]
+
+
+def not_cases():
+    """a negated compound condition as operand of AND / OR, in WHERE (one call and two calls), HAVING and ON"""
+    sel = lambda **kw: dict({"k": "sel", "cls": "SQLLiteQuery", "joins": []}, **kw)
+    cmpi = lambda c, op, z, i=0: ["basic", op, F(c, i), I(z), None]
+    neg = lambda x, y, op: ["not", ["cplx", op, x, y, None], None]
+    w1 = ["cplx", "and", cmpi("a", "gte", 1), neg(cmpi("b", "eq", 2), cmpi("c", "eq", 3), "or"), None]
+    w2 = ["cplx", "or", neg(cmpi("a", "gt", 1), cmpi("b", "lt", 3), "and"), cmpi("c", "eq", 1), None]
+    cnt = ["func", "COUNT", [["star", None]], None]
+    h = ["cplx", "or", ["basic", "gt", cnt, I(5), None],
+         ["not", ["cplx", "and", cmpi("a", "lte", 1), ["basic", "gt", ["func", "SUM", [F("c", 0)], None], I(0), None], None], None], None]
+    onc = ["cplx", "and", ["basic", "eq", F("id", 0), F("id", 1), None], neg(cmpi("a", "eq", 1, 1), cmpi("b", "eq", 2, 1), "or"), None]
+    return [{"kind": "sq", "order": o, "spec": x} for o in (None, 3, 4) for x in (
+        sel(**{"from": [T("t")], "selects": [["t", F("id", 0)], ["t", F("a", 0)]], "where": ["t", w1]}),
+        sel(**{"from": [T("u")], "selects": [["t", F("id", 0)], ["t", F("c", 0)]], "where": ["t", w2]}),
+        sel(**{"from": [T("t")], "selects": [["t", F("id", 0)]],
+               "where": ["cplx", "and", ["t", cmpi("a", "gte", 1)], ["not", ["cplx", "or", ["t", cmpi("b", "eq", 2)], ["t", cmpi("c", "eq", 3)]]]]}),
+        sel(**{"from": [T("t")], "selects": [["t", F("a", 0)], ["t", cnt]], "groupby": [["t", F("a", 0)]], "having": ["t", h]}),
+        sel(**{"from": [T("t")], "joins": [["left", T("u"), ["on", ["t", onc]]]], "selects": [["t", F("id", 0)], ["t", F("b", 1)]]}))]
+
+
 def corpus():
     sel = lambda **kw: dict({"k": "sel", "cls": "SQLLiteQuery", "joins": []}, **kw)
     cnt = ["func", "COUNT", [["star", None]], None]
-    return [
+    return window_frame_cases() + form_cases() + naming_cases() + not_cases() + [
         # F1: GROUP BY replaced by the select alias "b", which SQLite binds to the column t.b
         {"kind": "sq", "order": None, "spec": sel(
             **{"from": [T("t")], "selects": [["t", ["arith", "add", F("a", 0), I(1), "b"]], ["t", cnt]],
